@@ -199,7 +199,7 @@ def has_ready_agreement(cx):
     cx.check(any(v == ("bool", False) for _, v, _ in rets), "false-path", "has_ready() can answer false")
 
 
-@obligation("READY.handoff_bounds", ["C01", "C07", "C15"], floor=5, kind="value shape + sibling agreement",
+@obligation("READY.handoff_bounds", ["C01", "C07", "C15", "C20"], floor=5, kind="value shape + sibling agreement",
             why="`committed` alone hands out unpersisted entries; a different lower bound repeats or skips entries")
 def handoff_bounds(cx):
     ub = cx.fn("RaftLog::applied_index_upper_bound")
@@ -301,7 +301,7 @@ def _call_blocks(fn, suffix):
 def records(cx):
     aa = cx.fn("RawNode::advance_append")
     g = cx.pg(aa)
-    cr, opr, glr = _call_blocks(aa, "RawNode::commit_ready"), _call_blocks(aa, "RawNode::on_persist_ready"), _call_blocks(aa, "RawNode::gen_light_ready")
+    cr, opr, glr = _call_blocks(aa, "RawNode::commit_ready"), _call_blocks(aa, "RawNode::on_persist_ready"), _call_blocks(aa, cx.sfx("RawNode::gen_light_ready"))
     cx.check(len(cr) == 1 and len(opr) == 1 and len(glr) == 1, "advance_append:calls", "advance_append calls commit_ready, on_persist_ready and gen_light_ready once each")
     if cr and opr and glr:
         ok1 = g.dominated_by_block((min(opr), "term"), lambda b: b in cr)
